@@ -6,6 +6,9 @@ import (
 	"os"
 	"strings"
 
+	"github.com/gin-gonic/gin"
+
+	"github.com/ollama/ollama/api"
 	"github.com/ollama/ollama/template"
 	"github.com/ollama/ollama/types/model"
 )
@@ -318,6 +321,136 @@ func VerifC04SetTemplate(nMan int, which int) {
 		for k := 0; k < 3; k++ {
 			if l.Digest == vfDigest(k, false) {
 				verifAssert(vfBlobPresent[k], "layer-of-the-model-being-created-is-in-the-store")
+			}
+		}
+	}
+}
+
+// ---- delete: the real DeleteHandler over the model store ----
+
+var (
+	vfDeleteName string
+	vfStatus     int
+	vfEffects    []string // "M:<model>" manifest file removed, "B:<k>" blob k removed - in order
+)
+
+func vfShouldBindJSON(c *gin.Context, obj any) error {
+	obj.(*api.DeleteRequest).Model = vfDeleteName
+	return nil
+}
+
+func vfGinJSON4(c *gin.Context, code int, obj any)      { vfStatus = code }
+func vfGinAbortJSON(c *gin.Context, code int, obj any) { vfStatus = code }
+
+func vfParseNamedManifest(n model.Name) (*Manifest, error) {
+	m := vfStore[n]
+	if m == nil {
+		return nil, os.ErrNotExist
+	}
+	cp := *m
+	cp.filepath = "/models/manifests/" + n.Model
+	return &cp, nil
+}
+
+func vfGetManifestPath() (string, error) { return "/models/manifests", nil }
+func vfPruneDirectory(path string) error { return nil }
+
+// os.Remove for the delete harness: a manifest file disappears from the store model, a blob is recorded
+func vfOsRemoveD(name string) error {
+	if strings.HasPrefix(name, "/models/manifests/") {
+		mdl := name[len("/models/manifests/"):]
+		for n := range vfStore {
+			if n.Model == mdl {
+				delete(vfStore, n)
+			}
+		}
+		vfEffects = append(vfEffects, "M:"+mdl)
+		return nil
+	}
+	vfRemoved = append(vfRemoved, name)
+	for k := 0; k < 3; k++ {
+		if name == vfBlobFile(k) {
+			vfEffects = append(vfEffects, "B:"+string("abc"[k]))
+		}
+	}
+	return nil
+}
+
+// VerifC04Delete: an arbitrary store of nMan models sharing blobs in arbitrary ways; DELETE of one of them
+// (or of a name that does not exist). Afterwards the model is gone, no blob that a remaining model
+// references has been removed, every orphaned blob of the deleted model has; and (C12) after EVERY prefix of
+// the handler's file-system effects each model still listed has all its blobs.
+func VerifC04Delete(nMan int) {
+	vfRemoved, vfEffects, vfStatus = nil, nil, 200
+	vfArbStore(nMan, false)
+	// snapshot: what each model referenced before the request
+	type ref struct {
+		mdl  string
+		uses [3]bool
+	}
+	var before []ref
+	for n, m := range vfStore {
+		r := ref{mdl: n.Model}
+		for _, l := range append(append([]Layer(nil), m.Layers...), m.Config) {
+			for k := 0; k < 3; k++ {
+				if l.Digest == vfDigest(k, false) {
+					r.uses[k] = true
+				}
+			}
+		}
+		before = append(before, r)
+	}
+	victim := string("abcd"[verifChoice(nMan+1)]) // the last choice names a model that is not in the store
+	vfDeleteName = "h/n/" + victim + ":t"
+	s := &Server{}
+	s.DeleteHandler(&gin.Context{})
+	verifReach("delete-returned")
+	existed := false
+	for _, r := range before {
+		if r.mdl == victim {
+			existed = true
+		}
+	}
+	if !existed {
+		verifAssert(vfStatus == 404, "deleting-an-unknown-model-is-not-found")
+		verifAssert(len(vfEffects) == 0, "deleting-an-unknown-model-changes-nothing")
+		return
+	}
+	verifReach("model-deleted")
+	verifAssert(vfStatus == 200, "delete-succeeds")
+	for n := range vfStore {
+		verifAssert(n.Model != victim, "deleted-model-is-no-longer-listed")
+	}
+	vfCheckRemovals("blob-still-referenced-by-another-model-is-not-removed")
+	// replay the effects: after every prefix every model still listed has all its blobs
+	listed := map[string]bool{}
+	for _, r := range before {
+		listed[r.mdl] = true
+	}
+	present := [3]bool{true, true, true}
+	for _, e := range vfEffects {
+		if e[0] == 'M' {
+			listed[e[2:]] = false
+		} else {
+			present[int(e[2]-'a')] = false
+		}
+		for _, r := range before {
+			if listed[r.mdl] {
+				for k := 0; k < 3; k++ {
+					if r.uses[k] {
+						verifAssert(present[k], "at-every-crash-point-listed-model-has-every-layer")
+					}
+				}
+			}
+		}
+	}
+	// orphans of the deleted model are gone
+	for _, r := range before {
+		if r.mdl == victim {
+			for k := 0; k < 3; k++ {
+				if r.uses[k] && !vfReferenced(k) {
+					verifAssert(!present[k], "orphaned-layer-is-removed")
+				}
 			}
 		}
 	}
